@@ -121,6 +121,12 @@ func c15r3(c *Ctx) {
 				ob.Bad(nil, "the revision credited with is not built by a core ReviseForFundAccounts/ReviseForReplenish call")
 				continue
 			}
+			// alternative: the amount is <resp>.TotalCost()-style — a method of the value whose list is handed to the
+			// sink that folds exactly that list's amounts (summary recomputed from the method's source)
+			if sumByMethod(c, f, k.Args[len(k.Args)-1], deposits, sink) {
+				ob.OK("the amount is the method-computed sum of the list handed to the sink")
+				continue
+			}
 			sum := copySource(f, f.ObjOf(k.Args[len(k.Args)-1]))
 			if sum == nil {
 				ob.Bad(nil, "the amount given to %s is not a local accumulator", f.Callee(k).Name())
@@ -347,13 +353,9 @@ func c15r5(c *Ctx) {
 				if m.AST == nil || !containsNode(rs.Body, m.AST) || m.Block == nil || m.Block.Cond != m.AST || len(m.Succs) != 2 {
 					continue
 				}
-				if ix, ok := ast.Unparen(m.AST.(ast.Expr)).(*ast.IndexExpr); ok {
-					if mo := f.ObjOf(ix.X); mo != nil {
-						if mt, ok := mo.Type().Underlying().(*types.Map); ok && types.Identical(mt.Key(), account) {
-							maps[mo] = true
-							missEdges = append(missEdges, m.Succs[1])
-						}
-					}
+				if mo, miss, ok := membershipTest(f, m, account); ok {
+					maps[mo] = true
+					missEdges = append(missEdges, miss)
 				}
 			}
 			if len(missEdges) == 0 {
@@ -417,12 +419,16 @@ func rejectsDuplicates(c *Ctx, h *hostAPI, f *ir.Func, account *types.Named) boo
 			if m.AST == nil || !containsNode(rs.Body, m.AST) || m.Block == nil || m.Block.Cond != m.AST || len(m.Succs) != 2 {
 				continue
 			}
-			ix, ok := ast.Unparen(m.AST.(ast.Expr)).(*ast.IndexExpr)
-			if !ok || !isAcctMap(f, ix.X) {
+			_, miss, ok := membershipTest(f, m, account)
+			if !ok {
 				continue
 			}
+			hit := m.Succs[0]
+			if hit == miss {
+				hit = m.Succs[1]
+			}
 			onlyErr := true
-			for x := range f.ReachableFromEdges([]*cfgx.Edge{m.Succs[0]}, func(y *cfgx.Node) bool { return y == n }) {
+			for x := range f.ReachableFromEdges([]*cfgx.Edge{hit}, func(y *cfgx.Node) bool { return y == n }) {
 				if _, isRet := x.AST.(*ast.ReturnStmt); isRet && f.ClassifyReturn(x) != ir.RetError {
 					onlyErr = false
 				}
@@ -537,4 +543,145 @@ func c15r6(c *Ctx) {
 	if n == 0 {
 		ir.Fail("no scan-then-append idiom found (reference contractor's pool attachments)")
 	}
+}
+
+// membershipTest recognises a leaf condition that tests membership of a key in
+// a map keyed by keyType, however the set is represented: `seen[k]` on a
+// map[K]bool, or the comma-ok flag of `_, ok := seen[k]` (map[K]struct{} and
+// the like). It returns the map variable and the edge on which the key is absent.
+func membershipTest(f *ir.Func, m *cfgx.Node, keyType types.Type) (types.Object, *cfgx.Edge, bool) {
+	if m.AST == nil || m.Block == nil || m.Block.Cond != m.AST || len(m.Succs) != 2 {
+		return nil, nil, false
+	}
+	isSet := func(e ast.Expr) types.Object {
+		mo := f.ObjOf(e)
+		if mo == nil {
+			return nil
+		}
+		if mt, ok := mo.Type().Underlying().(*types.Map); ok && types.Identical(mt.Key(), keyType) {
+			return mo
+		}
+		return nil
+	}
+	cond := ast.Unparen(m.AST.(ast.Expr))
+	if ix, ok := cond.(*ast.IndexExpr); ok {
+		if mo := isSet(ix.X); mo != nil {
+			return mo, m.Succs[1], true
+		}
+		return nil, nil, false
+	}
+	flag := f.ObjOf(cond)
+	if flag == nil {
+		return nil, nil, false
+	}
+	defs := ReachingDefs(f, flag, m)
+	if len(defs) != 1 || defs[0] == nil {
+		return nil, nil, false
+	}
+	as, ok := defs[0].AST.(*ast.AssignStmt)
+	if !ok || len(as.Lhs) != 2 || len(as.Rhs) != 1 || f.ObjOf(as.Lhs[1]) != flag {
+		return nil, nil, false
+	}
+	ix, ok := ast.Unparen(as.Rhs[0]).(*ast.IndexExpr)
+	if !ok {
+		return nil, nil, false
+	}
+	if mo := isSet(ix.X); mo != nil {
+		return mo, m.Succs[1], true
+	}
+	return nil, nil, false
+}
+
+// sumByMethod: amount (looked through single definitions) is `X.M()` where the
+// list handed to the sink is X.<field>, M's body is one Add-fold of .Amount over
+// its receiver's same field, and the list is not written between the call and the sink.
+func sumByMethod(c *Ctx, f *ir.Func, amount ast.Expr, deposits ast.Expr, sink ir.Call) bool {
+	call, ok := ast.Unparen(origin(f, amount)).(*ast.CallExpr)
+	if !ok || len(call.Args) != 0 {
+		return false
+	}
+	sel, ok := ast.Unparen(call.Fun).(*ast.SelectorExpr)
+	if !ok {
+		return false
+	}
+	dsel, ok := ast.Unparen(deposits).(*ast.SelectorExpr)
+	if !ok || !sameLvalue(f, dsel.X, sel.X) {
+		return false
+	}
+	m := c.P.DepFunc(f.Callee(call))
+	if m == nil || m.Decl == nil || m.Decl.Recv == nil || len(m.Decl.Recv.List) != 1 || len(m.Decl.Recv.List[0].Names) != 1 {
+		return false
+	}
+	recv := m.Info().Defs[m.Decl.Recv.List[0].Names[0]]
+	// the fold inside M
+	folds := 0
+	okFold := true
+	var acc types.Object
+	for _, w := range m.WritesIn(m.Body, false) {
+		if _, isRange := w.Stmt.(*ast.RangeStmt); isRange {
+			continue
+		}
+		ac, isCall := ast.Unparen(w.RHS).(*ast.CallExpr)
+		if w.RHS == nil || !isCall {
+			if vs, isDecl := w.Stmt.(*ast.ValueSpec); isDecl && len(vs.Values) == 0 {
+				continue
+			}
+			okFold = false
+			continue
+		}
+		as, isSel := ac.Fun.(*ast.SelectorExpr)
+		if !isSel || as.Sel.Name != "Add" || len(ac.Args) != 1 || m.ObjOf(as.X) != m.ObjOf(w.LHS) {
+			okFold = false
+			continue
+		}
+		amt, isAmt := ast.Unparen(ac.Args[0]).(*ast.SelectorExpr)
+		if !isAmt || amt.Sel.Name != "Amount" {
+			okFold = false
+			continue
+		}
+		// the element ranges over recv.<same field>
+		elem := m.ObjOf(amt.X)
+		inLoop := false
+		ir.Walk(m.Body, false, func(x ast.Node) {
+			if rs, isRS := x.(*ast.RangeStmt); isRS && rs.Value != nil && m.ObjOf(rs.Value) == elem && elem != nil {
+				if xs, isSel := ast.Unparen(rs.X).(*ast.SelectorExpr); isSel && xs.Sel.Name == dsel.Sel.Name && m.ObjOf(xs.X) == recv {
+					inLoop = true
+				}
+			}
+		})
+		if !inLoop {
+			okFold = false
+		}
+		acc = m.ObjOf(w.LHS)
+		folds++
+	}
+	if !okFold || folds != 1 {
+		return false
+	}
+	for _, r := range m.Graph().Returns() {
+		rs, isRet := r.AST.(*ast.ReturnStmt)
+		if !isRet {
+			return false
+		}
+		if len(rs.Results) == 1 && m.ObjOf(rs.Results[0]) != acc {
+			return false
+		}
+	}
+	// the list is complete when summed: no write to it between the sum and the sink
+	g := f.Graph()
+	cn, sn := g.NodeContaining(call.Pos()), g.NodeContaining(sink.Pos())
+	if cn == nil || sn == nil || !g.DominatedByNode(sn, cn) {
+		return false
+	}
+	for n := range pathNodesBetween(g, cn, sn) {
+		if n.AST == nil {
+			continue
+		}
+		for _, w := range f.WritesIn(n.AST, false) {
+			if isPrefixLvalue(f, deposits, w.LHS) || sameLvalue(f, w.LHS, dsel.X) {
+				return false
+			}
+		}
+	}
+	return true
 }
